@@ -450,6 +450,7 @@ func runC14(c *Ctx, tier string) {
 	runDeleteComplement(c)
 	runSlicerBounds(c, "C14-S2")
 	runInputSortedWriters(c, "C14-S3")
+	runFirstKeyByPosition(c, "C14-M1")
 }
 
 // stableSorts: the named functions sort with a stable algorithm.
@@ -495,6 +496,7 @@ func runC15(c *Ctx, tier string) {
 	c.Rule("C15-E1", "conflict errors abort before any write: errors of Diff / Patch.Revert / PatchOfPath are returned from the constructor, which runs before commits.Put")
 	runDiffDeleteConflict(c, "C15-E2")
 	runDiffAddsOnlyChildAdditions(c, "C15-K2")
+	runRevertVectorGuards(c, "C15-V1")
 	// K1
 	methods := map[string]*ssa.Function{}
 	for _, fn := range p.FuncsIn("lake/commits") {
